@@ -1,7 +1,7 @@
 """C04 — undo restores the previous state exactly (structural clauses R1, R2, R4; DESIGN §4)."""
 from collections import Counter, defaultdict
 
-from sa.sym import Engine, show, show_cond, subterms, PathLimit
+from sa.sym import Engine, show, show_cond, subterms, PathLimit, C
 from .common import *
 
 EXPLANATION = (
@@ -384,7 +384,53 @@ def r4_raw_mutators(ctx):
     ctx.floor(rule, 'raw mutator call sites', n, 40)
 
 
+def r5_primitives(ctx):
+    """the state primitives behind apply/undo are exact inverses: +1 / -1 on the move counter, one push / one pop per stack"""
+    rule = 'C04.R5-primitive-inverses'
+    facts = ctx.facts
+    MI = 'chess::board::move_info::MoveInfo'
+    fm = ('fld', ('der', ('p', 1)), 'fullmove_clock')
+    for m, op in (('increment_fullmove_clock', 'Add'), ('decrement_fullmove_clock', 'Sub')):
+        name = MI + '::' + m
+        outs = Engine(facts).run(name)
+        ctx.touch(name)
+        rets = [o for o in outs if o.kind == 'return']
+        ok = False
+        found = None
+        for o in rets:
+            ws = [e for e in o.events if e[0] == 'write' and e[1] == fm]
+            if len(ws) == 1:
+                found = show(ws[0][2])
+                ok = ws[0][2] == ('bin', op, fm, C(1)) and len(rets) == 1
+        ctx.ob(rule, name, 'move counter %s 1 (plain arithmetic, the exact inverse of its sibling)' % ('+' if op == 'Add' else '-'), ok, found=found,
+               expected='fullmove_clock %s 1' % ('+' if op == 'Add' else '-'),
+               why='if one direction saturates, clamps or skips while the other does not, undo no longer restores the counter')
+    stacks = {
+        'en_passant_target_stack': (['push_en_passant_target'], ['pop_en_passant_target']),
+        'castle_rights_stack': (['lose_castle_rights', 'preserve_castle_rights'], ['pop_castle_rights']),
+        'halfmove_clock_stack': (['push_halfmove_clock', 'increment_halfmove_clock', 'reset_halfmove_clock'], ['pop_halfmove_clock']),
+    }
+    for st, (pushers, poppers) in stacks.items():
+        for m in pushers + poppers:
+            name = MI + '::' + m
+            outs = Engine(facts).run(name)
+            ctx.touch(name)
+            rets = [o for o in outs if o.kind == 'return']
+            good = bool(rets)
+            for o in rets:
+                pu = [e for e in o.events if e[0] == 'call' and e[1].endswith('Vec::<T, A>::push') and any(s[0] == 'fld' and s[2] == st for s in subterms(e[2][0]))]
+                po = [e for e in o.events if e[0] == 'call' and e[1].endswith('Vec::<T, A>::pop') and any(s[0] == 'fld' and s[2] == st for s in subterms(e[2][0]))]
+                other = [e for e in o.events if e[0] == 'call' and ('Vec::<T, A>::' in e[1]) and e not in pu and e not in po
+                         and not e[1].endswith('::len')]
+                want = (1, 0) if m in pushers else (0, 1)
+                good = good and (len(pu), len(po)) == want and not other
+            ctx.ob(rule, name, 'exactly one %s on %s on every returning path' % ('push' if m in pushers else 'pop', st), good,
+                   found=[[e[1].rsplit('::', 1)[-1] for e in o.events if e[0] == 'call' and 'Vec::<T, A>::' in e[1]] for o in rets][:2],
+                   expected='one push' if m in pushers else 'one pop')
+
+
 def run(ctx):
+    r5_primitives(ctx)
     r1_stack_balance(ctx)
     r2_mirror(ctx)
     r4_brackets(ctx)
